@@ -225,6 +225,7 @@ RULES = [
     (r'^c14_[qt]_push_column', dict(arena=64, mem_gb=14.0, timeout=1200, weight=9)),
     (r'^c14_[qt]_xlsb?_(binop|funcvar|unary)', dict(arena=64, mem_gb=20.0, timeout=900, weight=8)),
     (r'^c14_[qt]_xls', dict(arena=64)),
+    (r'^c14_t_xls_binop_tight', dict(arena=64, mem_gb=20.0, timeout=900, unwindset={'4TBuf': 24, '13parse_formula': 8, '20model_push_letters': 6})),
 ]
 
 DESCRIBE = {}
